@@ -86,6 +86,9 @@ func ackMutantsV1(s *PL, w *ksim.World, p channeltypes.Packet, ack, proof []byte
 func ackMutantsV2(s *PL, w *ksim.World, p channeltypesv2.Packet, ack channeltypesv2.Acknowledgement, proof []byte, ph clienttypes.Height) []mutant {
 	var out []mutant
 	add := func(name string, q channeltypesv2.Packet, a channeltypesv2.Acknowledgement, pr []byte, h clienttypes.Height) {
+		if fmt.Sprint(a.AppAcknowledgements) == fmt.Sprint(ack.AppAcknowledgements) && string(pr) == string(proof) && h.EQ(ph) && q.String() == p.String() {
+			return // identical to the honest message
+		}
 		out = append(out, mutant{name: name, msg: channeltypesv2.NewMsgAcknowledgement(q, a, pr, h, ksim.Signer)})
 	}
 	first := ack.AppAcknowledgements[0]
@@ -96,6 +99,24 @@ func ackMutantsV2(s *PL, w *ksim.World, p channeltypesv2.Packet, ack channeltype
 		add("ack-sentinel-substituted", p, channeltypesv2.Acknowledgement{AppAcknowledgements: [][]byte{channeltypesv2.ErrorAcknowledgement[:]}}, proof, ph)
 	} else {
 		add("ack-success-substituted", p, channeltypesv2.Acknowledgement{AppAcknowledgements: [][]byte{[]byte("ok")}}, proof, ph)
+	}
+	if n := len(ack.AppAcknowledgements); n > 1 {
+		// multi-payload acknowledgements: every position altered, reordered, and a family of 512 forged values per
+		// position (a commitment that binds an application acknowledgement by only a few bits would accept one of them)
+		for i := 0; i < n; i++ {
+			alt := append([][]byte{}, ack.AppAcknowledgements...)
+			alt[i] = bump(alt[i])
+			add(fmt.Sprintf("ack-flip-pos%d", i), p, channeltypesv2.Acknowledgement{AppAcknowledgements: alt}, proof, ph)
+			for k := 0; k < 512; k++ {
+				f := append([][]byte{}, ack.AppAcknowledgements...)
+				f[i] = []byte(fmt.Sprintf("{\"error\":\"forged-%d\"}", k))
+				add(fmt.Sprintf("ack-forged-pos%d@%d", i, k), p, channeltypesv2.Acknowledgement{AppAcknowledgements: f}, proof, ph)
+			}
+		}
+		sw := append([][]byte{}, ack.AppAcknowledgements...)
+		sw[0], sw[1] = append(sw[1], 'x'), sw[0]
+		add("ack-list-reordered", p, channeltypesv2.Acknowledgement{AppAcknowledgements: sw}, proof, ph)
+		add("ack-list-shortened", p, channeltypesv2.Acknowledgement{AppAcknowledgements: ack.AppAcknowledgements[:n-1]}, proof, ph)
 	}
 	clone := func() channeltypesv2.Packet {
 		q := p
@@ -193,8 +214,16 @@ func ackLattice(c *core.C, s *PL, w *ksim.World) *ksim.Fail {
 				return &ksim.Fail{Key: fmt.Sprintf("honest-ack-mismatch/%s/want=%v", routeNames[p.Route], wantOK), Text: fmt.Sprintf("acknowledgement of %s/%d at proof height %s answered %s, reference says accept=%v (proven=%v pending=%v open=%v inOrder=%v client=%s)", p.srcID(), p.Seq, phh, hr, wantOK, proven, pending, open, inOrder, status)}
 			}
 			if success {
-				// the application saw exactly the proven bytes, once
-				if len(f.Obs) != nObs+1 || f.Obs[nObs].Seq != p.Seq || !strings.HasSuffix(f.Obs[nObs].Data, ackBytes) {
+				// the application(s) saw exactly the proven bytes, once per payload
+				nCb := 1
+				if p.isV2() {
+					nCb = len(p.V2.Payloads)
+				}
+				okCb := len(f.Obs) == nObs+nCb
+				for i := 0; okCb && i < nCb; i++ {
+					okCb = f.Obs[nObs+i].Seq == p.Seq && strings.HasSuffix(f.Obs[nObs+i].Data, ackBytes)
+				}
+				if !okCb {
 					return &ksim.Fail{Key: "ack-callback-mismatch/" + routeNames[p.Route], Text: fmt.Sprintf("acknowledgement of %s/%d reached the application as %+v, proven bytes %q", p.srcID(), p.Seq, f.Obs[nObs:], ackBytes)}
 				}
 			} else if same, d := storesUnchanged(w, f, 0); !same || len(f.Obs) != nObs {
@@ -235,8 +264,12 @@ func ackLattice(c *core.C, s *PL, w *ksim.World) *ksim.Fail {
 	return nil
 }
 
-func c06Scenario(c *core.C, routes []int, kinds []string) *PL {
+func c06Scenario(c *core.C, routes []int, kinds []string, payloads ...int) *PL {
 	sc := macro(&PL{Routes: routes, MaxSend: 2, MaxCommits: 3, DataKinds: kinds, Close: false})
+	if len(payloads) > 0 {
+		sc.Payloads = payloads[0]
+		sc.MaxSend = 1
+	}
 	sc.Movers = []string{"freezeA", "expireA"}
 	sc.InvFn = func(s *PL, w *ksim.World) *ksim.Fail { return ackLattice(c, s, w) }
 	return sc
@@ -248,7 +281,9 @@ func runC06(c *core.C) {
 		{Name: "v1-unordered", Sc: c06Scenario(c, []int{rV1U}, []string{"ok", "fail"}), Cfg: ksim.Config{MaxDepth: 6 + d}, Share: 0.25},
 		{Name: "v1-ordered", Sc: c06Scenario(c, []int{rV1O}, []string{"ok"}), Cfg: ksim.Config{MaxDepth: 6 + d}, Share: 0.33},
 		{Name: "v2-client", Sc: c06Scenario(c, []int{rV2C}, []string{"ok", "fail"}), Cfg: ksim.Config{MaxDepth: 6 + d}, Share: 0.5},
-		{Name: "v2-alias", Sc: c06Scenario(c, []int{rV2A}, []string{"ok"}), Cfg: ksim.Config{MaxDepth: 6 + d}},
+		{Name: "v2-alias", Sc: c06Scenario(c, []int{rV2A}, []string{"ok"}), Cfg: ksim.Config{MaxDepth: 6 + d}, Share: 0.6},
+		{Name: "v2-client/2-payloads", Sc: c06Scenario(c, []int{rV2C}, []string{"ok"}, 2), Cfg: ksim.Config{MaxDepth: 5 + d}, Share: 0.6},
+		{Name: "v2-alias/3-payloads", Sc: c06Scenario(c, []int{rV2A}, []string{"ok"}, 3), Cfg: ksim.Config{MaxDepth: 5 + d}},
 	}
 	ksim.RunParts(c, parts, [][]ksim.Op{
 		{{K: "send", A: []int{0, 0, 0}}, {K: "sync", A: []int{0}}, {K: "recv", A: []int{0, 13}}, {K: "sync", A: []int{1}}},
